@@ -1203,7 +1203,9 @@ class Store:
         the updaters from their nodes.
         """
 
-        if self.inner or self.subschema or self.glob_declared:
+        if self.inner or self.subschema or (
+                self.glob_declared and not self.leaf
+                and isinstance(value, dict)):
             if not isinstance(value, dict):
                 raise Exception(f"trying to set branch {self.path_for()} to value {value}")
 
@@ -1226,7 +1228,9 @@ class Store:
         but don't overwrite any existing values.
         """
 
-        if self.inner or self.subschema or self.glob_declared:
+        if self.inner or self.subschema or (
+                self.glob_declared and not self.leaf
+                and isinstance(value, dict)):
             if not isinstance(value, dict):
                 raise Exception(f"trying to set branch {self.path_for()} to value {value}")
 
